@@ -591,6 +591,34 @@ def run(ctx, B, collect=False):
             dl = False
         R.cmp("include/" + p["header"], "not-exported", p["name"], dl and p["name"] in exported, "dlsym: %s, nm -D --defined-only: %s" % (dl, p["name"] in exported),
               "declared: %s %s(%s)" % (p["ret"], p["name"], ", ".join(t for t, n in p["args"])), os.path.basename(so), "exports")
+    # ... and the compiler's own list of every function the public headers DECLARE (gcc -aux-info), whether or not the declaration carries the export marker:
+    # a prototype that lost XRL_EXTERN / XRL_DEPRECATED is still declared to the user but silently drops out of the (hidden-by-default) shared object
+    import tempfile
+    with tempfile.TemporaryDirectory() as td:
+        stub = os.path.join(td, "aux.c"); auxf = os.path.join(td, "aux.X")
+        open(stub, "w").write('#include "xraylib.h"\n')
+        pr = subprocess.run(["gcc"] + B.defs + B.inc + ["-c", stub, "-aux-info", auxf, "-o", os.devnull], stdout=subprocess.PIPE, stderr=subprocess.STDOUT, text=True)
+        if pr.returncode or not os.path.exists(auxf):
+            raise common.Infra("gcc -aux-info failed: %s" % pr.stdout[-500:])
+        inc_dir = os.path.realpath(os.path.join(build.REPO, "include"))
+        declared = {}
+        for l in open(auxf):
+            m_ = re.match(r"/\* (\S+?):(\d+):\w+ \*/ (.*?)\b(\w+) \(", l)
+            if m_ and os.path.realpath(m_.group(1)).startswith(inc_dir + os.sep) and "static" not in m_.group(3):
+                declared[m_.group(4)] = "%s:%s" % (os.path.relpath(os.path.realpath(m_.group(1)), os.path.realpath(build.REPO)), m_.group(2))
+    if len(declared) < len(ref.ps):
+        raise common.Infra("gcc -aux-info lists %d declarations, the header lexer found %d marked prototypes" % (len(declared), len(ref.ps)))
+    notes["declared_functions_by_compiler"] = len(declared)
+    marked = {p["name"] for p in ref.ps}
+    for name_, where_ in sorted(declared.items()):
+        if name_ in marked:
+            continue
+        try:
+            getattr(lib, name_); dl = True
+        except AttributeError:
+            dl = False
+        R.cmp(where_.split(":")[0], "not-exported", name_, dl and name_ in exported, "dlsym: %s, nm -D --defined-only: %s" % (dl, name_ in exported),
+              "declared at %s (without export marker)" % where_, os.path.basename(so), "exports")
     wrapped = set()
     for f in F["bindc"] + G["bindc"]: wrapped.add(f["cname"])
     for f in PM["functions"] + PP["functions"]:
